@@ -115,7 +115,7 @@ inline static void Swap(Type_T &item1, Type_T &item2) noexcept {
 
 template <bool Ascend_T, typename Type_T, typename Number_T>
 inline static void Sort(Type_T *arr, Number_T start, Number_T end) noexcept {
-    if (start != end) {
+    while (start != end) {
         Type_T  &item   = arr[start];
         Number_T index  = start;
         Number_T offset = (start + Number_T{1});
@@ -140,9 +140,18 @@ inline static void Sort(Type_T *arr, Number_T start, Number_T end) noexcept {
             Swap(arr[index], arr[start]);
         }
 
-        Sort<Ascend_T>(arr, start, index);
-        ++index;
-        Sort<Ascend_T>(arr, index, end);
+        // The smaller part in a nested call, the larger one in this frame: sorted, reversed or equal items split off
+        // one item per pass, and one frame per item overflows the stack long before the set is large.
+        if ((index - start) < (end - index)) {
+            Sort<Ascend_T>(arr, start, index);
+            start = index;
+            ++start;
+        } else {
+            ++index;
+            Sort<Ascend_T>(arr, index, end);
+            --index;
+            end = index;
+        }
     }
 }
 
